@@ -1528,6 +1528,12 @@ def run(ctx, res):
     semantic = c07_dft.check_root_order(res, facts)
     check_root(res, facts, semantic)
     check_vanish(res, facts)
+    from rules import iter_override as IO
+    from arklib import symex as SX_
+    from arklib.poly import Q as Q_
+    IO.check(res, facts, ctx.facts(["shapes"]), [
+        ("ark_poly|Elements", "ws", "ark_poly", "utils::Elements", [SX_.Obj(adt="ark_poly::domain::utils::Elements", fields={0: Q_.var("e"), 1: 0, 2: 6, 3: Q_.var("g")})], range(0, 9), (0, 2, 5, 6), 9),
+    ], "the domain element iterator (Elements)")
     check_pass(res, facts)
     from rules import c07_dft
     c07_dft.check_dft(res, facts, ctx.tier)
